@@ -81,7 +81,13 @@ func (g *G) Scalar() string {
 	case 3:
 		return "false"
 	case 4, 5, 6:
-		return g.R.Pick(numberLits)
+		n := g.R.Pick(numberLits)
+		if (n == "1e400" || n == "12345678901234567890123") && !g.R.P(150) {
+			// literals outside float64/int64 switch off the standard-library comparison of a
+			// whole text (C17): keep them, but rare
+			n = g.R.Pick(numberLits[:7])
+		}
+		return n
 	default:
 		if g.R.P(30) {
 			// invalid UTF-8 inside a string (still well-formed JSON for Go's scanner)
